@@ -318,6 +318,9 @@ type Opaque struct{ Why string }
 
 type Tuple []Value
 
+// BytesOf is []byte(s) for a (possibly symbolic) string s.
+type BytesOf struct{ S Str }
+
 // Lazy is a not-yet-chosen value (loop-carried boolean state).
 type Lazy struct {
 	Tag  string
@@ -394,6 +397,8 @@ func Show(v Value) string {
 			parts = append(parts, Show(e))
 		}
 		return "(" + strings.Join(parts, ", ") + ")"
+	case BytesOf:
+		return "bytes(" + v.S.String() + ")"
 	case *Lazy:
 		return "lazy(" + v.Tag + ")"
 	case *FuncVal:
